@@ -551,6 +551,67 @@ func (oc *obligCtx) enumerate(fn *ssa.Function, kinds map[string]bool) []Obligat
 	return out
 }
 
+// parallelAppended: the slices a and b have the same length at `at`: both start empty (nil), every
+// extension of either is an append of exactly one element, the appends pair up one to one inside
+// the same basic blocks, and `at` lies in none of those blocks.
+func parallelAppended(a, b ssa.Value, at ssa.Instruction) bool {
+	aApps, aBases := sliceAppends(a)
+	bApps, bBases := sliceAppends(b)
+	if len(aApps) == 0 || len(aApps) != len(bApps) {
+		return false
+	}
+	for _, base := range append(append([]ssa.Value{}, aBases...), bBases...) {
+		if !isNilConst(base) {
+			return false
+		}
+	}
+	byBlock := map[*ssa.BasicBlock]int{}
+	for _, ap := range aApps {
+		if len(appendedElems(ap)) != 1 || ap.Block() == at.Block() {
+			return false
+		}
+		byBlock[ap.Block()]++
+	}
+	for _, bp := range bApps {
+		if len(appendedElems(bp)) != 1 || bp.Block() == at.Block() {
+			return false
+		}
+		byBlock[bp.Block()]--
+	}
+	for _, d := range byBlock {
+		if d != 0 {
+			return false
+		}
+	}
+	return true
+}
+
+// rangeCounterOver: idx is the counter of a `for i := range Y` loop (go/ssa: phi(-1, i+1) compared
+// with len(Y)); returns Y.
+func rangeCounterOver(idx ssa.Value) (bool, ssa.Value) {
+	bo, ok := stripNumConv(idx).(*ssa.BinOp)
+	if !ok || bo.Op != token.ADD {
+		return false, nil
+	}
+	ph, ok := bo.X.(*ssa.Phi)
+	if !ok {
+		return false, nil
+	}
+	if refs := bo.Referrers(); refs != nil {
+		for _, ref := range *refs {
+			cmp, ok := ref.(*ssa.BinOp)
+			if !ok || cmp.Op != token.LSS || cmp.X != ssa.Value(bo) {
+				continue
+			}
+			if t := termOf(cmp.Y); t.isLen() && t.Off == 0 {
+				_ = ph
+				return true, t.LenVal
+			}
+		}
+	}
+	return false, nil
+}
+
 type addFn func(kind string, in ssa.Instruction, desc string, ok bool, why string)
 
 func (oc *obligCtx) indexOb(fn *ssa.Function, in ssa.Instruction, X, idx ssa.Value, add addFn) {
@@ -597,6 +658,26 @@ func (oc *obligCtx) indexOb(fn *ssa.Function, in ssa.Instruction, X, idx ssa.Val
 	hi := f.ltLen(idx, X)
 	if n, isArr := isArrayLike(X.Type()); isArr && !hi {
 		hi = f.upperBound(idx, n)
+	}
+	if !hi {
+		// idx < len(Y) is known and Y grows in step with X (each is only ever extended by one
+		// element, pairwise in the same basic block, from empty): len(X) = len(Y) here
+		for _, cm := range f.Cmps {
+			l, op, r := cm.L, cm.Op, cm.R
+			if l.isLen() {
+				l, r = r, l
+				op = flipOp(op)
+			}
+			if op != token.LSS || !r.isLen() || r.Off != 0 || l.V == nil || l.Off != 0 || !sameTerm(Term{V: l.V}, Term{V: stripNumConv(idx)}) {
+				continue
+			}
+			if r.LenVal != X && parallelAppended(X, r.LenVal, in) {
+				hi = true
+			}
+		}
+		if rc, Y := rangeCounterOver(idx); rc && Y != nil && Y != X && parallelAppended(X, Y, in) {
+			hi = true
+		}
 	}
 	switch {
 	case lo && hi:
